@@ -55,7 +55,9 @@ def constAny (env : Env) (t : Tensor) : Option (Arr Rat) := constData env t
 def initTensor (env : Env) (oi : OpInfo) (t : Tensor) : PyM Qsv :=
   match constAny env t with
   | none => pure none
-  | some d => do
+  | some d =>
+    -- repair D28: an empty constant (the shape operand of a reshape to a scalar) has no min/max
+    if d.data.isEmpty then pure none else do
     let (mn, mx) ← initMinMax env oi t d
     pure (some (⟨mn.arr, statPrec t⟩, ⟨mx.arr, statPrec t⟩))
 
